@@ -5,8 +5,9 @@ CONSTANTS
   Value = 3
   F2Quirk = FALSE
   KVDupQuirk = FALSE
+  Lossy = {}
   Descs = {}
   Reasons = {}
-INVARIANTS ConformCls ConformState ConformRet ConformCount ConformInFl RecordedNoOverpay NoOverpay StatusTruthful
+INVARIANTS ConformCls ConformState ConformRet ConformCount ConformInFl ConformRoute ConformRetRoute RecordedRoundTrip RecordedNoOverpay NoOverpay StatusTruthful
 PROPERTIES TAdmitOnlyWhenOpen TInitRefused TRefusalIsNoOp TSucceededAbsorbing TFailedOnlyViaInit
 CHECK_DEADLOCK TRUE
